@@ -403,6 +403,13 @@ func (f *Frame) applyContract(ct *FuncContract, fn *ssa.Function, args []Val, c 
 			}
 		}
 	}
+	if fn != nil {
+		for _, il := range f.p.implicitLocks(fn) {
+			if mon := f.p.findMonitor(il.structT, il.field); mon != nil && il.param < len(args) {
+				f.interfere(mon, il.structT, args[il.param].T)
+			}
+		}
+	}
 	old := f.cur.clone()
 	env.old = old
 	// frame
@@ -780,7 +787,13 @@ func (f *Frame) callWrites(c *ssa.CallCommon) ([]string, bool) {
 		return nil, false
 	}
 	if ct := f.p.contractFor(fn); ct != nil && !ct.Inline {
-		return f.modifiesComps(ct, fn, c.Signature())
+		cs, all := f.modifiesComps(ct, fn, c.Signature())
+		for _, il := range f.p.implicitLocks(fn) {
+			if mon := f.p.findMonitor(il.structT, il.field); mon != nil {
+				cs = append(cs, f.lockWritesOf(il.structT, mon)...)
+			}
+		}
+		return cs, all
 	}
 	if _, ok := libSpecial[name]; ok {
 		return libSpecialWrites(f, name, c)
@@ -1053,6 +1066,42 @@ func (p *Program) ifaceContract(c *ssa.CallCommon) *FuncContract {
 	return nil
 }
 
+// hashInvoke: h.Write([]byte(name)); h.Sum64() on a hash.Hash64 is the deterministic function hwhash(name)
+func (f *Frame) hashInvoke(c *ssa.CallCommon) ([]Val, bool) {
+	if c.Value.Type().String() != "hash.Hash64" {
+		return nil, false
+	}
+	vc := f.vc
+	switch c.Method.Name() {
+	case "Write":
+		return []Val{f.freshVal("hw_n", types.Typ[types.Int]), {"inil", "Iface"}}, true
+	case "Sum64":
+		// find the (single) Write on the same receiver whose argument is []byte(<string>)
+		var src ssa.Value
+		n := 0
+		for _, ref := range *c.Value.Referrers() {
+			call, ok := ref.(*ssa.Call)
+			if !ok || !call.Call.IsInvoke() || call.Call.Method.Name() != "Write" {
+				continue
+			}
+			n++
+			if cv, ok := call.Call.Args[0].(*ssa.Convert); ok {
+				if b, ok := cv.X.Type().Underlying().(*types.Basic); ok && b.Info()&types.IsString != 0 {
+					src = cv.X
+				}
+			}
+		}
+		if n == 1 && src != nil {
+			vc.declareFun("hwhash", []string{"Str"}, "Int")
+			vc.axiomOnce("hwhash_range", "(forall ((s Str)) (! (and (<= 0 (hwhash s)) (<= (hwhash s) 18446744073709551615)) :pattern ((hwhash s))))")
+			vc.trust("highwayhash: New64(zerokey); Write([]byte(name)); Sum64() is a deterministic function hwhash(name)")
+			return []Val{{app("hwhash", f.val(src).T), "Int"}}, true
+		}
+		return []Val{f.freshVal("sum64", types.Typ[types.Uint64])}, true
+	}
+	return nil, false
+}
+
 func pureInvoke(c *ssa.CallCommon) bool {
 	t := c.Value.Type().String()
 	m := c.Method.Name()
@@ -1079,6 +1128,9 @@ func (f *Frame) invoke(c *ssa.CallCommon, pos token.Pos) []Val {
 	vc := f.vc
 	recv := f.val(c.Value)
 	f.safe("nil", pos, orDefault(f.exprText(pos, "call"), c.Value.Name()+"."+c.Method.Name()), not(eq(recv.T, "inil")))
+	if r, ok := f.hashInvoke(c); ok {
+		return r
+	}
 	if ct := f.p.ifaceContract(c); ct != nil {
 		args := []Val{recv}
 		for _, a := range c.Args {
@@ -1241,41 +1293,9 @@ func (f *Frame) lockWrites(v ssa.Value) []string {
 	f.vc.regComp(comp, "(Array Int Int)")
 	out := []string{comp}
 	if m := f.p.findMonitor(st, fieldName(fa)); m != nil {
-		for _, pf := range m.Protects {
-			if path, ft, ok := findField(st, pf); ok {
-				if isStruct(ft) {
-					for _, l := range structLeaves(ft, nil) {
-						n, _ := f.vc.regField(st, append(append([]int{}, path...), l.path...))
-						out = append(out, n)
-					}
-				} else {
-					n, _ := f.vc.regField(st, path)
-					out = append(out, n)
-				}
-			}
-		}
-		out = append(out, f.monitorDeepComps(m, st)...)
+		out = append(out, f.lockWritesOf(st, m)...)
 	}
 	return out
-}
-
-// lockWritesOf: components havocked when the monitor lock is acquired
-func (f *Frame) lockWritesOf(st types.Type, m *Monitor) []string {
-	var out []string
-	for _, pf := range m.Protects {
-		if path, ft, ok := findField(st, pf); ok {
-			if isStruct(ft) {
-				for _, l := range structLeaves(ft, nil) {
-					n, _ := f.vc.regField(st, append(append([]int{}, path...), l.path...))
-					out = append(out, n)
-				}
-			} else {
-				n, _ := f.vc.regField(st, path)
-				out = append(out, n)
-			}
-		}
-	}
-	return append(out, f.monitorDeepComps(m, st)...)
 }
 
 func (f *Frame) setFrameBase(comp string) {
@@ -1313,6 +1333,22 @@ func (p *Program) findMonitor(st types.Type, lock string) *Monitor {
 func (f *Frame) monitorDeepComps(m *Monitor, st types.Type) []string {
 	vc := f.vc
 	var out []string
+	add := func(t types.Type) {
+		switch u := t.Underlying().(type) {
+		case *types.Map:
+			h, v := vc.regMap(u)
+			out = append(out, h, v)
+		case *types.Slice:
+			out = append(out, vc.regMem(u.Elem()))
+		case *types.Pointer:
+			if isStruct(u.Elem()) {
+				for _, l := range structLeaves(u.Elem(), nil) {
+					n, _ := vc.regField(u.Elem(), l.path)
+					out = append(out, n)
+				}
+			}
+		}
+	}
 	for _, pf := range m.Protects {
 		_, ft, ok := findField(st, pf)
 		if !ok {
@@ -1320,18 +1356,39 @@ func (f *Frame) monitorDeepComps(m *Monitor, st types.Type) []string {
 		}
 		switch t := ft.Underlying().(type) {
 		case *types.Map:
-			h, v := vc.regMap(t)
-			out = append(out, h, v)
-			// nested maps
-			if inner, ok := t.Elem().Underlying().(*types.Map); ok {
-				h2, v2 := vc.regMap(inner)
-				out = append(out, h2, v2)
-			}
+			add(t.Elem()) // objects stored in the protected map belong to the monitor too
 		case *types.Slice:
-			out = append(out, vc.regMem(t.Elem()))
+			add(t.Elem())
 		}
 	}
 	return out
+}
+
+// lockWritesOf: components havocked when the monitor lock is acquired
+func (f *Frame) lockWritesOf(st types.Type, m *Monitor) []string {
+	vc := f.vc
+	var out []string
+	for _, pf := range m.Protects {
+		if path, ft, ok := findField(st, pf); ok {
+			if isStruct(ft) {
+				for _, l := range structLeaves(ft, nil) {
+					n, _ := vc.regField(st, append(append([]int{}, path...), l.path...))
+					out = append(out, n)
+				}
+			} else {
+				n, _ := vc.regField(st, path)
+				out = append(out, n)
+				switch t := ft.Underlying().(type) {
+				case *types.Map:
+					h, v := vc.regMap(t)
+					out = append(out, h, v)
+				case *types.Slice:
+					out = append(out, vc.regMem(t.Elem()))
+				}
+			}
+		}
+	}
+	return append(out, f.monitorDeepComps(m, st)...)
 }
 
 func (f *Frame) lockOp(op lockOp, lockVal ssa.Value, pos token.Pos) {
@@ -1385,8 +1442,20 @@ func (f *Frame) monitorEnv(m *Monitor, st types.Type, base string, state, old *S
 }
 
 func (f *Frame) monitorAcquire(m *Monitor, st types.Type, base string) {
+	f.interfere(m, st, base)
+	// remember the state at acquisition for two-state guarantees
+	if f.acqState == nil {
+		f.acqState = map[string]*State{}
+	}
+	f.acqState[m.RecvType+"."+m.Lock+"@"+base] = f.cur.clone()
+	f.lastAcq = f.acqState[m.RecvType+"."+m.Lock+"@"+base]
+}
+
+// interfere: while the lock was free other threads may have changed what it protects, within the
+// monitor's invariant (assumed) and its two-state guarantee (the rely of this thread).
+func (f *Frame) interfere(m *Monitor, st types.Type, base string) {
 	vc := f.vc
-	// other threads may have changed the protected fields (and the contents of protected containers)
+	before := f.cur.clone()
 	for _, pf := range m.Protects {
 		path, ft, ok := findField(st, pf)
 		if !ok {
@@ -1405,6 +1474,17 @@ func (f *Frame) monitorAcquire(m *Monitor, st types.Type, base string) {
 		vc.set(f.cur, n, store(vc.get(f.cur, n), base, nv))
 		vc.assume(vc.rangeFact(ft, nv))
 		vc.assume(vc.allocatedFact(f.cur, ft, nv))
+		// contents of the container the field refers to
+		switch t := ft.Underlying().(type) {
+		case *types.Map:
+			has, val := vc.regMap(t)
+			ks := vc.sortOf(t.Key())
+			vc.set(f.cur, has, store(vc.get(f.cur, has), nv, vc.fresh("has_acq", "(Array "+ks+" Bool)")))
+			vc.set(f.cur, val, store(vc.get(f.cur, val), nv, vc.fresh("val_acq", "(Array "+ks+" "+vc.sortOf(t.Elem())+")")))
+		case *types.Slice:
+			comp := vc.regMem(t.Elem())
+			vc.set(f.cur, comp, store(vc.get(f.cur, comp), "(s-ref "+nv+")", vc.fresh("blk_acq", "(Array Int "+vc.sortOf(t.Elem())+")")))
+		}
 	}
 	for _, c := range f.monitorDeepComps(m, st) {
 		vc.havocComp(f.cur, c)
@@ -1413,17 +1493,19 @@ func (f *Frame) monitorAcquire(m *Monitor, st types.Type, base string) {
 	for _, c := range f.lockWritesOf(st, m) {
 		f.setFrameBase(c)
 	}
-	// remember the state at acquisition for two-state guarantees
-	if f.acqState == nil {
-		f.acqState = map[string]*State{}
-	}
-	f.acqState[m.RecvType+"."+m.Lock+"@"+base] = f.cur.clone()
-	f.lastAcq = f.acqState[m.RecvType+"."+m.Lock+"@"+base]
-	env := f.monitorEnv(m, st, base, f.cur, f.cur)
+	env := f.monitorEnv(m, st, base, f.cur, before)
 	for _, inv := range m.Invs {
 		t, err := env.evalBool(inv.Expr)
 		if err != nil {
 			vc.unbound = append(vc.unbound, fmt.Sprintf("monitor %s.%s inv %s: %v", m.RecvType, m.Lock, inv.Label, err))
+			continue
+		}
+		vc.assumeG(f.guard, t)
+	}
+	for _, g := range m.Guars {
+		t, err := env.evalBool(g.Expr)
+		if err != nil {
+			vc.unbound = append(vc.unbound, fmt.Sprintf("monitor %s.%s guar %s: %v", m.RecvType, m.Lock, g.Label, err))
 			continue
 		}
 		vc.assumeG(f.guard, t)
@@ -1659,6 +1741,9 @@ func (p *Program) implicitLocks(fn *ssa.Function) []implicitLock {
 	if r, ok := p.implLocks[fn]; ok {
 		return r
 	}
+	if p.implFrozen || fn.Blocks == nil || !p.isReceptorFunc(fn) {
+		return nil
+	}
 	var out []implicitLock
 	seen := map[string]bool{}
 	for _, b := range fn.Blocks {
@@ -1702,6 +1787,55 @@ func (p *Program) implicitLocks(fn *ssa.Function) []implicitLock {
 					if !seen[k] {
 						seen[k] = true
 						out = append(out, implicitLock{i, st, fieldName(fa)})
+					}
+				}
+			}
+		}
+	}
+	p.implLocks[fn] = out // (also breaks recursion cycles)
+	// transitive: locks taken by static callees on objects that are our parameters
+	paramOf := func(v ssa.Value) int {
+		if u, ok := v.(*ssa.UnOp); ok && u.Op == token.MUL {
+			if a, ok := u.X.(*ssa.Alloc); ok {
+				for _, ref := range *a.Referrers() {
+					if st, ok := ref.(*ssa.Store); ok && st.Addr == a {
+						v = st.Val
+					}
+				}
+			}
+		}
+		for i, prm := range fn.Params {
+			if prm == v {
+				return i
+			}
+		}
+		return -1
+	}
+	for _, b := range fn.Blocks {
+		for _, in := range b.Instrs {
+			var cc *ssa.CallCommon
+			switch x := in.(type) {
+			case *ssa.Call:
+				cc = &x.Call
+			case *ssa.Defer:
+				cc = &x.Call
+			}
+			if cc == nil || cc.IsInvoke() {
+				continue
+			}
+			callee := cc.StaticCallee()
+			if callee == nil || callee == fn || callee.Blocks == nil || !p.isReceptorFunc(callee) {
+				continue
+			}
+			for _, il := range p.implicitLocks(callee) {
+				if il.param >= len(cc.Args) {
+					continue
+				}
+				if i := paramOf(cc.Args[il.param]); i >= 0 {
+					k := fmt.Sprintf("%d.%s", i, il.field)
+					if !seen[k] {
+						seen[k] = true
+						out = append(out, implicitLock{i, il.structT, il.field})
 					}
 				}
 			}
